@@ -1103,6 +1103,114 @@ func TestVerifReplay(t *testing.T) {
 }
 `
 		return "web", "subscriptionmanager", src, true
+	case strings.HasPrefix(o.Name, "priorityqueue."):
+		src := `package priorityqueue
+
+import (
+	"math/rand"
+	"sort"
+	"testing"
+)
+
+type rpPrio int
+
+func (a rpPrio) CompareTo(b rpPrio) int {
+	switch {
+	case a < b:
+		return -1
+	case a > b:
+		return 1
+	}
+	return 0
+}
+
+// model: the multiset of (priority, value) pairs still queued, popped lowest priority first; removal handles are
+// idempotent and remove their own element only
+func TestVerifReplay(t *testing.T) {
+	for seed := int64(1); seed <= 60; seed++ {
+		rng := rand.New(rand.NewSource(seed))
+		q := New[int, rpPrio]()
+		model := map[int]rpPrio{} // value (unique) -> priority
+		handles := map[int]func(){}
+		next := 0
+		minPrio := func() (rpPrio, bool) {
+			first := true
+			var m rpPrio
+			for _, p := range model {
+				if first || p < m {
+					m, first = p, false
+				}
+			}
+			return m, !first
+		}
+		for step := 0; step < 120; step++ {
+			switch op := rng.Intn(10); {
+			case op < 4:
+				next++
+				p := rpPrio(rng.Intn(12))
+				handles[next] = q.Push(next, p)
+				model[next] = p
+			case op < 6:
+				v, ok := q.Pop()
+				m, any := minPrio()
+				if ok != any || (ok && model[v] != m) {
+					t.Fatalf("REPLAY-VIOLATION PriorityQueue seed %d step %d: Pop returned (%d, %v) with priority %d, the queue holds %v (lowest priority %d)", seed, step, v, ok, model[v], model, m)
+				}
+				delete(model, v)
+			case op == 6:
+				v, ok := q.Peek()
+				m, any := minPrio()
+				if ok != any || (ok && model[v] != m) {
+					t.Fatalf("REPLAY-VIOLATION PriorityQueue seed %d step %d: Peek returned (%d, %v), the queue holds %v", seed, step, v, ok, model)
+				}
+			case op == 7:
+				bound := rpPrio(rng.Intn(12))
+				got := q.PopUntil(bound)
+				var want []int
+				for v, p := range model {
+					if p <= bound {
+						want = append(want, v)
+					}
+				}
+				for i := 1; i < len(got); i++ {
+					if model[got[i-1]] > model[got[i]] {
+						t.Fatalf("REPLAY-VIOLATION PriorityQueue seed %d step %d: PopUntil(%d) returned %v out of priority order (%v)", seed, step, bound, got, model)
+					}
+				}
+				g := append([]int{}, got...)
+				sort.Ints(g)
+				sort.Ints(want)
+				if len(g) != len(want) {
+					t.Fatalf("REPLAY-VIOLATION PriorityQueue seed %d step %d: PopUntil(%d) returned %v, the elements with a priority up to the bound are %v (queue %v)", seed, step, bound, g, want, model)
+				}
+				for i := range g {
+					if g[i] != want[i] {
+						t.Fatalf("REPLAY-VIOLATION PriorityQueue seed %d step %d: PopUntil(%d) returned %v, expected %v", seed, step, bound, g, want)
+					}
+					delete(model, g[i])
+				}
+			case op == 8 && len(handles) > 0:
+				// a removal handle - of a queued or an already removed / popped element, possibly for the second time
+				k := 1 + rng.Intn(next)
+				handles[k]()
+				delete(model, k)
+			default:
+				if rng.Intn(6) == 0 {
+					got := q.PopAll()
+					if len(got) != len(model) {
+						t.Fatalf("REPLAY-VIOLATION PriorityQueue seed %d step %d: PopAll returned %d elements, the queue held %d", seed, step, len(got), len(model))
+					}
+					model = map[int]rpPrio{}
+				}
+			}
+			if q.Size() != len(model) || q.IsEmpty() != (len(model) == 0) {
+				t.Fatalf("REPLAY-VIOLATION PriorityQueue seed %d step %d: Size %d / IsEmpty %v, the queue holds %d elements", seed, step, q.Size(), q.IsEmpty(), len(model))
+			}
+		}
+	}
+}
+`
+		return "ds", "priorityqueue", src, true
 	case strings.HasPrefix(o.Name, "walker.Walker."):
 		src := `package walker
 
